@@ -135,6 +135,7 @@ class StateMachine(metaclass=StateMachineMetaclass):
     def __getstate__(self):
         state = self.__dict__.copy()
         state["_rtc"] = self._engine._rtc
+        state["_state_value"] = self.current_state_value
         del state["_callbacks"]
         del state["_states_for_instance"]
         del state["_engine"]
@@ -144,7 +145,13 @@ class StateMachine(metaclass=StateMachineMetaclass):
         listeners = state.pop("_listeners")
         passes = state.pop("_listener_passes", None) or [tuple(listeners)]
         rtc = state.pop("_rtc")
+        state_value = state.pop("_state_value", None)
         self.__dict__.update(state)
+        if state_value is not None and getattr(self.model, self.state_field, None) is None:
+            # The model is itself still being rebuilt (it owns this machine or a trigger bound
+            # to it, and the copy started there): give it back the state it held, otherwise
+            # the engine would activate the initial state again.
+            setattr(self.model, self.state_field, state_value)
         self._callbacks = CallbacksRegistry()
         self._states_for_instance: Dict[State, State] = {}
 
